@@ -28,7 +28,7 @@ import (
 	"github.com/dolthub/dolt/go/zzverif/vsql"
 )
 
-const c08Rule = "one server, one fresh database per case. Builder session (autocommit, @@dolt_allow_commit_conflicts=1): tables t(pk,c1,c2), u(pk,v), d(pk,n) with 3-6 rows (+ optionally 150/400 bulk rows so trees have two levels), commit; a drawn subset of features: file remote `origin` (push main, later fetch so remotes/origin/main lags; optionally a branch pushed and then deleted locally so only the remote-tracking ref holds it), tags (one optionally on the head of a branch that is deleted afterwards), in 3 of 4 cases an early collection in the middle of the history (dolt_gc() or dolt_gc('--full'), so later garbage and older data sit in the old generation) followed in 4 of 5 of those by a demotion of data that was committed on branch `keep` before it (tag + reset --hard HEAD~1, reset --soft HEAD~1, or reset --soft + stash: afterwards only a tag, a working set or a stash reaches that data), the collection under test then being --full in half of these cases (orders default→full, full→default, full→full, default→default all occur, and the second GC after the writers is --full in half of all cases), a deleted branch with two unique commits, in-progress conflicted dolt_merge (optionally over an uncommitted change to a table main did not touch), dolt_cherry_pick, dolt_revert, interactive dolt_rebase stopped at a conflict (plan optionally edited: squash / reword / drop), 1-2 stashes, staged != working on main, an untracked table. Then 0-3 writer sessions (each on its own branch, incl. conflicted ones) open a transaction and insert 1-2 fresh rows; the GC statement (mode default | --full | --shallow, archive level unset | 0 | 1) runs from a fresh session (the builder session still connected, or disconnected first), from the builder session, or from a session that itself has an open transaction with a pending insert; the writers run 0-2 more inserts and finish with COMMIT or dolt_commit('-am'). Oracle: vsql.Fingerprint (+ the dolt_rebase plan) before GC == after GC; closure walk (types.WalkAddrsFromNomsValue from every dataset head over the server's chunk store) finds every address, after GC, after the writers committed and after a second GC (mode drawn again); after the writers finish every fingerprint line of a branch nobody wrote is unchanged and the written branches contain exactly the old rows plus the written ones; second GC leaves the fingerprint unchanged; finally every in-progress operation is either aborted (working and staged tables of that branch must equal the snapshot taken before the operation started, when no writer touched the branch), or resolved and committed/continued (must succeed), and the final fingerprint has no unreadable part. Non-trivial (DESIGN): at least 3 of {stash, in-progress merge/cherry-pick/revert, in-progress rebase, staged != working, tag, remote ref} and garbage was really collected (the .dolt directory shrank or the deleted branch's head commit is no longer in the store); distinct by feature set + modes + writer plan."
+const c08Rule = "one server, one fresh database per case. Builder session (autocommit, @@dolt_allow_commit_conflicts=1): tables t(pk,c1,c2), u(pk,v), d(pk,n) with 3-6 rows and big(pk, who, doc TEXT, bin BLOB, js JSON) whose cells are drawn from the size classes inline (1-300 bytes), around the 2048-byte inline/out-of-line threshold, out of line (2.5-7 KB) and multi-chunk (12-24 KB): 2 rows at the start, one more in the second commit of 2 of 3 side branches, optionally in a stash, staged and working-only on main, and one written by a writer session before the GC (+ optionally 150/400 bulk rows so trees have two levels), commit; a drawn subset of features: file remote `origin` (push main, later fetch so remotes/origin/main lags; optionally a branch pushed and then deleted locally so only the remote-tracking ref holds it), tags (one optionally on the head of a branch that is deleted afterwards), in 3 of 4 cases an early collection in the middle of the history (dolt_gc() or dolt_gc('--full'), so later garbage and older data sit in the old generation) followed in 4 of 5 of those by a demotion of data that was committed on branch `keep` before it (tag + reset --hard HEAD~1, reset --soft HEAD~1, or reset --soft + stash: afterwards only a tag, a working set or a stash reaches that data), the collection under test then being --full in half of these cases (orders default→full, full→default, full→full, default→default all occur, and the second GC after the writers is --full in half of all cases), a deleted branch with two unique commits, in-progress conflicted dolt_merge (optionally over an uncommitted change to a table main did not touch), dolt_cherry_pick, dolt_revert, interactive dolt_rebase stopped at a conflict (plan optionally edited: squash / reword / drop), 1-2 stashes, staged != working on main, an untracked table. Then 0-3 writer sessions (each on its own branch, incl. conflicted ones) open a transaction and insert 1-2 fresh rows; the GC statement (mode default | --full | --shallow, archive level unset | 0 | 1) runs from a fresh session (the builder session still connected, or disconnected first), from the builder session, or from a session that itself has an open transaction with a pending insert; the writers run 0-2 more inserts and finish with COMMIT or dolt_commit('-am'). Oracle: vsql.Fingerprint (+ the dolt_rebase plan) before GC == after GC; closure walk (types.WalkAddrsFromNomsValue from every dataset head over the server's chunk store) finds every address, after GC, after the writers committed and after a second GC (mode drawn again); after the writers finish every fingerprint line of a branch nobody wrote is unchanged and the written branches contain exactly the old rows plus the written ones; second GC leaves the fingerprint unchanged; finally every in-progress operation is either aborted (working and staged tables of that branch must equal the snapshot taken before the operation started, when no writer touched the branch), or resolved and committed/continued (must succeed), and the final fingerprint has no unreadable part. Non-trivial (DESIGN): at least 3 of {stash, in-progress merge/cherry-pick/revert, in-progress rebase, staged != working, tag, remote ref} and garbage was really collected (the .dolt directory shrank or the deleted branch's head commit is no longer in the store); distinct by feature set + modes + writer plan."
 
 var c08Assumptions = []string{
 	"online GC uses the session-aware safepoint controller (the default): connections stay usable after dolt_gc, so sessions do not reconnect",
@@ -318,6 +318,18 @@ func c08Run(rt *rapid.T, srv *vsql.Server, admin *vsql.Session, scratch string, 
 	x("INSERT INTO u VALUES (1, 'u1'), (2, 'u2'), (3, 'u3')")
 	x("CREATE TABLE d (pk INT PRIMARY KEY, n INT)")
 	x("INSERT INTO d VALUES (1, 1)")
+	// wide TEXT / BLOB / JSON cells around the inline / out-of-line threshold, some stored as multi-chunk trees
+	wide := map[string]bool{}
+	bigRow := func(label string, pk int, who string) string {
+		row, classes := gcBigRow(rt, label, pk, who)
+		for _, cl := range classes {
+			wide[cl] = true
+		}
+		return "INSERT INTO big VALUES " + row
+	}
+	x(gcBigTableDDL)
+	x(bigRow("init_wide1", 1, "init"))
+	x(bigRow("init_wide2", 2, "init"))
 	if bulk > 0 {
 		vals = vals[:0]
 		for i := 0; i < bulk; i++ {
@@ -357,6 +369,9 @@ func c08Run(rt *rapid.T, srv *vsql.Server, admin *vsql.Session, scratch string, 
 		x(fmt.Sprintf("INSERT INTO t VALUES (%d, %d, '%s')", 10+i, 10+i, strings.Repeat(b+"/", 20)))
 		x("CALL dolt_commit('-am', '" + b + " change 1')")
 		x(fmt.Sprintf("UPDATE t SET c1 = %d WHERE pk = 2", 300+i))
+		if rapid.IntRange(0, 2).Draw(rt, b+"_wide_row") > 0 {
+			x(bigRow(b+"_wide", 100+i, b))
+		}
 		x("CALL dolt_commit('-am', '" + b + " change 2')")
 	}
 	x("CALL dolt_checkout('main')")
@@ -463,6 +478,8 @@ func c08Run(rt *rapid.T, srv *vsql.Server, admin *vsql.Session, scratch string, 
 		x(fmt.Sprintf("INSERT INTO t VALUES (%d, %d, 'stashed %d')", 60+i, 60+i, i))
 		if i == 1 {
 			x("INSERT INTO u VALUES (61, 'stashed too')")
+		} else if rapid.Bool().Draw(rt, "stash_wide_row") {
+			x(bigRow("stash_wide", 160, "stash"))
 		}
 		x(fmt.Sprintf("CALL dolt_stash('push', 'st%d')", i))
 	}
@@ -474,6 +491,11 @@ func c08Run(rt *rapid.T, srv *vsql.Server, admin *vsql.Session, scratch string, 
 		x("CALL dolt_add('t')")
 		x("INSERT INTO t VALUES (71, 71, 'working only')")
 		x("DELETE FROM u WHERE pk = 3")
+		if rapid.Bool().Draw(rt, "dirty_wide_rows") {
+			x(bigRow("staged_wide", 170, "staged"))
+			x("CALL dolt_add('big')")
+			x(bigRow("working_wide", 171, "working"))
+		}
 		c.feat("dirty")
 		if untracked {
 			x("CREATE TABLE w (pk INT PRIMARY KEY, note VARCHAR(50))")
@@ -520,9 +542,16 @@ func c08Run(rt *rapid.T, srv *vsql.Server, admin *vsql.Session, scratch string, 
 		w.pks = append(w.pks, pk)
 		c.x(w.se, fmt.Sprintf("INSERT INTO t VALUES (%d, %d, '%s')", pk, pk, strings.Repeat(w.name+"-", 15)))
 	}
+	wideLen := map[string]int{} // writer name -> length of the TEXT cell it wrote before the GC
 	for _, w := range writers {
 		for i := 0; i < w.pre; i++ {
 			writeOne(w)
+		}
+		if rapid.Bool().Draw(rt, w.name+"_wide_row") {
+			n, cl := gcBigSize(rt, w.name+"_wide")
+			wide["doc:"+cl] = true
+			wideLen[w.name] = n
+			c.x(w.se, fmt.Sprintf("INSERT INTO big VALUES (%d, '%s', '%s', NULL, NULL)", w.basePK+50, w.name, gcBigString(w.basePK+50, n)))
 		}
 	}
 
@@ -660,6 +689,15 @@ func c08Run(rt *rapid.T, srv *vsql.Server, admin *vsql.Session, scratch string, 
 			}
 		}
 	}
+	for _, w := range writers {
+		if n, ok := wideLen[w.name]; ok {
+			want := gcBigString(w.basePK+50, n)
+			got, err := a2Query(c, fmt.Sprintf("SELECT doc FROM `%s/%s`.big WHERE pk = %d", db, w.branch, w.basePK+50))
+			if err != nil || got != want {
+				c.fatalf("the %d-byte TEXT cell writer %s inserted before the GC and committed after it reads back as %d bytes (err %v)", n, w.name, len(got), err)
+			}
+		}
+	}
 	c.closure("after the writers committed")
 
 	// ---- second GC: nothing changes
@@ -770,6 +808,9 @@ func c08Run(rt *rapid.T, srv *vsql.Server, admin *vsql.Session, scratch string, 
 		strings.Join(c.feats, ","), mainVal, nInit, mode, level, caller, strings.Join(wdesc, " "), mode2, level2, strings.Join(endings, ","))
 	classes := []string{"mode=" + mode, "level=" + level, "caller=" + caller, fmt.Sprintf("writers=%d", len(writers)), fmt.Sprintf("rich=%d", rich)}
 	classes = append(classes, fmt.Sprintf("gc_order=%s>%s>%s", earlyGC, mode, mode2))
+	for cl := range wide {
+		classes = append(classes, "wide:"+cl)
+	}
 	if demote != "none" && (mode == "--full" || mode2 == "--full") {
 		classes = append(classes, "demoted_old_gen_data_then_full_gc")
 	}
@@ -799,4 +840,18 @@ func c08Run(rt *rapid.T, srv *vsql.Server, admin *vsql.Session, scratch string, 
 		classes = append(classes, "archive_files_present")
 	}
 	rec.Case(desc, rich >= 3 && collected, classes...)
+}
+
+// a2Query runs a one-value query in a fresh session.
+func a2Query(c *c08Case, q string) (string, error) {
+	se := c.srv.Session(c.rt, "rd", "")
+	defer se.Close()
+	r, err := se.Query(q)
+	if err != nil {
+		return "", err
+	}
+	if len(r.Data) != 1 {
+		return "", fmt.Errorf("%d rows", len(r.Data))
+	}
+	return r.Data[0][0], nil
 }
